@@ -541,6 +541,21 @@ func c11Engine(c *core.Ctx, o *core.Outcome) *core.Outcome {
 		}
 	}()
 	all := append([]*world.World{shared}, solos...)
+	// the listed finding seen through the engine: on the plain filesystem store without a session on the
+	// handle the state record of session X is the file "@X", which is also the legacy fallback name for
+	// the state record of session "@X"
+	classify := func(at string) (string, map[string]string) {
+		if cfg.Backend == world.BackFs && !cfg.SetSession {
+			for _, x := range ids {
+				for _, y := range ids {
+					if y == "@"+x {
+						return "cross-data", map[string]string{"shape": "fs-legacy-fallback-name", "level": "engine"}
+					}
+				}
+			}
+		}
+		return "cross-session-interference", map[string]string{"backend": world.BackendNames[cfg.Backend], "at": at, "shared_persister": fmt.Sprint(sharePe)}
+	}
 	served := make([]int, ns)
 	dead := make([]bool, ns)
 	nreq := t.Range(4, 16)
@@ -586,22 +601,23 @@ func c11Engine(c *core.Ctx, o *core.Outcome) *core.Outcome {
 			o.Probes["foreign_panic"]++
 			break
 		}
+		// what the session holds after the request, not only what it showed: symbols per level and the
+		// value kept for the end of the session
+		if ss.ExecErr == "" && st.ExecErr == "" && ss.Finished && st.Finished && ss.FinishErr == "" && st.FinishErr == "" {
+			if ra, rb := storedState(shared, S[k]), storedState(solos[k], T[k]); ra != rb {
+				o.Scenario = map[string]interface{}{"shared": scenario(shared, nil), "alone": scenario(solos[k], nil), "ids": ids, "order": string(order)}
+				class, attrs := classify("stored-record")
+				return finish(o, all...).Fail(class, i, attrs,
+					"request %d (session %q, its request #%d; sessions %q served in order %s over one %s handle, set_session=%v, shared flushing persister=%v): the stored record of the session is {%s}; served alone it is {%s}",
+					i, ids[k], served[k]-1, ids, string(order), world.BackendNames[cfg.Backend], cfg.SetSession, sharePe, ra, rb)
+			}
+			o.Probes["stored_record_compared"]++
+		}
 		if ss.Out != st.Out || ss.Cont != st.Cont || (ss.ExecErr == "") != (st.ExecErr == "") || (ss.FlushErr == "") != (st.FlushErr == "") || (ss.FinishErr == "") != (st.FinishErr == "") {
 			if c.WantScenario || true {
 				o.Scenario = map[string]interface{}{"shared": scenario(shared, nil), "alone": scenario(solos[k], nil), "ids": ids, "order": string(order)}
 			}
-			class, attrs := "cross-session-interference", map[string]string{"backend": world.BackendNames[cfg.Backend], "at": "request", "shared_persister": fmt.Sprint(sharePe)}
-			if cfg.Backend == world.BackFs && !cfg.SetSession {
-				// the listed finding seen through the engine: the state record of session X is the file "@X",
-				// which is also the legacy fallback name for the state record of session "@X"
-				for _, x := range ids {
-					for _, y := range ids {
-						if y == "@"+x {
-							class, attrs = "cross-data", map[string]string{"shape": "fs-legacy-fallback-name", "level": "engine"}
-						}
-					}
-				}
-			}
+			class, attrs := classify("request")
 			return finish(o, all...).Fail(class, i, attrs,
 				"request %d (session %q, its request #%d, input %s; sessions %q served in order %s over one %s handle, set_session=%v, shared flushing persister=%v): output %s cont=%v exec=%q flush=%q finish=%q; the same session served alone on its own store: output %s cont=%v exec=%q flush=%q finish=%q",
 				i, ids[k], served[k]-1, short(string(in)), ids, string(order), world.BackendNames[cfg.Backend], cfg.SetSession, sharePe, short(ss.Out), ss.Cont, ss.ExecErr, ss.FlushErr, ss.FinishErr, short(st.Out), st.Cont, st.ExecErr, st.FlushErr, st.FinishErr)
